@@ -66,6 +66,8 @@ type loopSnap struct {
 	variant *Term
 	names   map[string]Value
 	locs    []loc // loop assigns clause evaluated at loop entry (nil: none given)
+	ghost   map[string]*Term
+	gensym  int // generated-symbol counter at loop entry: fresh regions numbered above it were allocated inside the loop
 }
 
 func (f *Frame) clone() *Frame {
@@ -102,6 +104,7 @@ type State struct {
 	trace  []string
 	depth  int
 	dead   bool
+	locks  []*Term // regions of objects whose mutex was locked on this path
 }
 
 func (s *State) clone() *State {
@@ -115,6 +118,7 @@ func (s *State) clone() *State {
 		oldGh:  s.oldGh,
 		trace:  append([]string(nil), s.trace...),
 		depth:  s.depth,
+		locks:  append([]*Term(nil), s.locks...),
 	}
 	for k := range s.hypSet {
 		n.hypSet[k] = true
